@@ -992,7 +992,7 @@ def do_int(value: t.Any, default: int = 0, base: int = 10) -> int:
             return int(value, base)
 
         return int(value)
-    except (TypeError, ValueError):
+    except (TypeError, ValueError, OverflowError):
         # this quirk is necessary so that "42.23"|int gives 42.
         try:
             return int(float(value))
@@ -1007,7 +1007,7 @@ def do_float(value: t.Any, default: float = 0.0) -> float:
     """
     try:
         return float(value)
-    except (TypeError, ValueError):
+    except (TypeError, ValueError, OverflowError):
         return default
 
 
